@@ -8,6 +8,8 @@
 // except according to those terms.
 
 mod types;
+#[cfg(html5ever_verif)]
+pub mod verif;
 
 use log::{debug, warn};
 use markup5ever::{local_name, namespace_prefix, ns};
